@@ -204,6 +204,10 @@ Definition render_get_dir (self : fileserver) (req : request) (p : ppath) : FM r
         else raise XValueError
     end.
 
+(* f.seek(start); f.read(k): nothing when start is at or beyond the end (also keeps huge block numbers cheap to evaluate) *)
+Definition read_at (content : list Z) (start k : Z) : list Z :=
+  if blen content <=? start then [] else bto (bfrom content start) k.
+
 (* fileserver.py:280-326 render_get_file *)
 Definition render_get_file (self : fileserver) (req : request) (p : ppath) : FM response :=
   if nonempty_list (opt_uri_path req) && last_is_empty (opt_uri_path req) then raise XAbundantTrailingSlash
@@ -213,7 +217,7 @@ Definition render_get_file (self : fileserver) (req : request) (p : ppath) : FM 
     match c with
     | inl e => raise (XOSError e)
     | inr content =>
-        let data := bto (bfrom content (blk_start num szx)) (blk_size szx + 1) in    (* f.seek(start); f.read(size + 1) *)
+        let data := read_at content (blk_start num szx) (blk_size szx + 1) in       (* f.seek(start); f.read(size + 1) *)
         obs_stat p ;;;
         let more := blen data >? blk_size szx in
         let block_out := if (num =? 0) && negb more then None else Some (num, more, szx) in
